@@ -453,6 +453,16 @@ def _judge(res, case, sc, enc, tr):
                 break
     for k, m in oracle.wire_problems(wire, bool(case.get('compress'))):
         res.xobs.append('C03/' + k)
+    for f in wire.frames:
+        # a Pong is an answer only if a server can read it as one: masked,
+        # FIN set, 7-bit length form (control frames have no other)
+        if f.opcode == peer.OP_PONG:
+            p = peer.client_frame_problems(f, bool(case.get('compress')))
+            if p:
+                res.bad('C14/%s/pong_malformed' % tag,
+                        'Pong written as an invalid frame (%s): %r' % (
+                            '+'.join(p), f))
+                break
     res.nontrivial = len(ping_events) >= 1
     res.sig = '%s|%s|%s|%s' % (tag, ','.join(n[:3] for n in names),
                                case.get('app_close_at'), len(cuts))
